@@ -27,7 +27,7 @@ from harness import fitting as FT
 from harness.core import MachineryError
 
 NPROC = 8
-INVS = ['DepsSelected', 'Multiplicity', 'OrderFree', 'ExactOptimal', 'Additive', 'Homogeneous', 'EmitF']
+INVS = ['DepsSelected', 'Multiplicity', 'OrderFree', 'ExactOptimal', 'Additive', 'Homogeneous', 'FamilyBijection', 'EmitF']
 
 
 def cfg(nr, nc, *, cat, trainmax=3, rset='R12', thin_r=1, thin_1=1, thin_t=1, pats='Pat3', compmax=2, lingrid=1, init='FInit',
@@ -35,7 +35,7 @@ def cfg(nr, nc, *, cat, trainmax=3, rset='R12', thin_r=1, thin_1=1, thin_t=1, pa
     s = '\n'.join(['CONSTANTS', f'  NR = {nr}', f'  NC = {nc}', '  MaxObj = 1', '  MaxRows = 9', '  MaxPats = 9',
                    '  Depth = 0', '  NanPairs <- NanPairsNone', '  ArgLevel = 2', '  EmitMod = 1', '  Ops <- NoOps',
                    f'  Catalogue <- {cat}', f'  InterpOnly = {"TRUE" if init == "IInit" else "FALSE"}', f'  TrainMax = {trainmax}', f'  RSet <- {rset}', f'  ThinR = {thin_r}',
-                   f'  Thin1 = {thin_1}', f'  ThinT = {thin_t}', f'  PatSels <- {pats}', f'  CompMax = {compmax}', f'  LinGrid = {lingrid}']) + '\n'
+                   f'  Thin1 = {thin_1}', f'  ThinT = {thin_t}', f'  PatSels <- {pats}', f'  CompMax = {compmax}', f'  LinGrid = {lingrid}', '  NFam = 4']) + '\n'
     if trace:
         return s + 'SPECIFICATION TSpec\nCHECK_DEADLOCK FALSE\n'
     return s + f'INIT {init}\nNEXT FNext\n' + ''.join(f'INVARIANT {i}\n' for i in INVS) + 'CHECK_DEADLOCK FALSE\n'
@@ -123,9 +123,37 @@ def run_lin(ctx, name, nr, nc, **kw):
     return n
 
 
+def run_model(ctx, name, nr, nc, **kw):
+    """model families (index <-> subset) and the bookkeeping / defaults / dictionary form of the model classes"""
+    r = ctx.tlc('MC_Fitting', cfg(nr, nc, init='MInit', trainmax=0, **kw), name=name, timeout=3000, workers=NPROC)
+    if not r.n_emitted:
+        raise MachineryError(f'{name}: TLC emitted nothing')
+    nf = nm = 0
+    for o in r.iter_emitted():
+        if o['t'] == 'fam':
+            res = FT.check_family(o)
+            nf += 1
+            if o['n'] >= 3 and len(o['subset']) >= 2:
+                ctx.nontriv(('fam', o['n'], o['i']))
+                if nf % 7 == 0:
+                    ctx.sample({'run': name, 'family': o})
+        else:
+            res = FT.check_model(o, nc)
+            nm += 1
+        ctx.count(6)
+        for key, what, case in res:
+            ctx.violation(key, what, dict(case, run=name))
+    ctx.traces += nf + nm
+    ctx.extra.setdefault('model_runs', {})[name] = {'family_members': nf, 'bases': nm}
+    if nf < 15 or nm < 1:
+        raise MachineryError(f'{name}: vacuous model run ({nf} family members, {nm} bases)')
+
+
 def _trace_job(args):
     seed, const = args
     try:
+        if seed % 6 == 5:
+            return seed, FT.record_family_trace(seed)
         return seed, FT.record_trace(seed, const)
     except np.linalg.LinAlgError:
         return seed, {'skip': 'singular'}
@@ -148,15 +176,21 @@ def run_traces(ctx, ntr):
             continue
         traces.append(t)
         meta.append(seed)
-        ctx.count(sum(1 + len(e['comps']) for e in t['ev']))
+        ctx.count(sum(1 + len(e.get('comps', [])) for e in t['ev']))
     if len(traces) < 0.4 * ntr:
         raise MachineryError(f'only {len(traces)} of {ntr} recorded fit sessions are usable')
     # binding self-test
     corrupt = []
-    t0 = json.loads(json.dumps(traces[0]))
+    fit_tr = next(t for t in traces if t['hdr']['fitter'] != 'family')
+    fam_tr = next(t for t in traces if t['hdr']['fitter'] == 'family' and len(t['ev'][-1]['subset']) >= 1)
+    tf = json.loads(json.dumps(fam_tr))
+    tf['ev'][-1]['subset'] = [x + 1 for x in tf['ev'][-1]['subset']]
+    tf['ev'][-1]['rows'] = list(tf['ev'][-1]['subset'])
+    corrupt.append(tf)
+    t0 = json.loads(json.dumps(fit_tr))
     t0['ev'][0]['comps'][0]['s9'] = t0['ev'][0]['s9'] + t0['hdr']['tol9'] + 5
     corrupt.append(t0)
-    t1 = json.loads(json.dumps(traces[0]))
+    t1 = json.loads(json.dumps(fit_tr))
     row = t1['ev'][0]['tok'][0]
     k = next(i for i, v in enumerate(row) if v > 0)
     row[k] += 1
@@ -178,6 +212,10 @@ def run_traces(ctx, ntr):
         if why == 'not-accepted':
             raise MachineryError(f'recorder produced a trace the specification cannot step through: seed {meta[idx]}')
         hdr = traces[idx]['hdr']
+        if hdr['fitter'] == 'family':
+            ctx.violation(f'C08/family/trace/{why}', 'recorded ModelFamily member is not the subset the specification lists for its index',
+                          {'seed': meta[idx], 'diag': d, 'event': traces[idx]['ev'][d.get('l', 1) - 1]})
+            continue
         clause = {'data-entries': 'f', 'beaten': {'fit_regress': 'a', 'fit_regress_nn': 'b', 'fit_select': 'c',
                                                   'fit_interpolate': 'd'}[hdr['fitter']],
                   'negative-weight': 'b', 'not-unit-norm': 'e', 'not-adjacent-convex': 'd', 'index-range': 'c'}.get(why, 'a')
@@ -215,12 +253,15 @@ def run(ctx):
                 pats='Pat4')
         run_lin(ctx, 'lin_3', 3, 3, cat='Cat3', lingrid=2)
         run_lin(ctx, 'lin_4', 3, 4, cat='Cat4', lingrid=1)
+        run_model(ctx, 'model_4', 3, 4, cat='Cat4')
+        run_model(ctx, 'model_3', 3, 3, cat='Cat3')
     else:
         run_fit(ctx, 'f_3', 3, 3, cat='Cat3', trainmax=3, rset='R12', thin_r=1, thin_1=5, thin_t=61, pats='Pat3', opt_every=10)
         run_fit(ctx, 'f_4', 3, 4, cat='Cat4', trainmax=2, rset='R12', thin_r=13, thin_1=5, thin_t=61, pats='Pat4', opt_every=10)
         # paths of 4-5 RDMs for selection / interpolation models: competitors over ALL segments
-        run_fit(ctx, 'f_interp', 3, 4, cat='CatI4', init='IInit', trainmax=2, rset='R12', thin_r=13, thin_1=3, thin_t=61,
+        run_fit(ctx, 'f_interp', 3, 4, cat='CatI4', init='IInit', trainmax=2, rset='R12', thin_r=13, thin_1=5, thin_t=131,
                 pats='Pat4Few')
         run_lin(ctx, 'lin_4', 3, 4, cat='Cat4K3', lingrid=1)
+        run_model(ctx, 'model_4', 3, 4, cat='Cat4')
     ctx.exhaustive = thorough
     run_traces(ctx, 600 if thorough else 240)
